@@ -255,8 +255,8 @@ var (
 	c04CallDevs = []string{"false", "nil", "approval", "topicless", "error", "vmerror", "fabricate", "amt-1"}
 	c04Bal1Devs = []string{"+1", "-1", "nil", "error", "vmerror", "as-expected"}
 	// deviations used alone and in random combinations only
-	c04Bal0Extra = []string{"short", "long"}
-	c04CallExtra = []string{"garbage", "short", "approval-first", "amt+1", "custom-then-approval", "custom-approval-first", "topicless-then-approval"}
+	c04Bal0Extra = []string{"short", "long", "max", "zero"}
+	c04CallExtra = []string{"garbage", "short", "approval-first", "amt+1", "custom-then-approval", "custom-approval-first", "topicless-then-approval", "selfdestruct"}
 	c04Bal1Extra = []string{"short", "long"}
 )
 
@@ -408,6 +408,12 @@ func runC04(e *Env) {
 				{Call: "false", Bal1: "as-expected"}, {Call: "approval", Bal1: "as-expected"}, {Call: "error", Bal1: "as-expected"},
 				// over-long balance answers whose trailing word moves by the amount although no token moved
 				{Bal0: "long", Call: "fabricate", Bal1: "long"}, {Bal0: "long", Bal1: "long"}, {Bal0: "long", Call: "amt-1", Bal1: "long"},
+				// balances at the ends of uint256 (a token with unchecked arithmetic): the second answer is the expected
+				// balance modulo 2^256, which is NOT the expected balance
+				{Bal0: "max", Bal1: "as-expected"}, {Bal0: "zero", Bal1: "as-expected"},
+				{Bal0: "max", Call: "fabricate", Bal1: "as-expected"}, {Bal0: "zero", Call: "fabricate", Bal1: "as-expected"},
+				// the token destroys itself inside the module's call, with and without an honest-looking answer afterwards
+				{Call: "selfdestruct", Bal1: "as-expected"}, {Call: "selfdestruct", Bal1: "nil"},
 			} {
 				one("b", pair, dir, pl)
 			}
